@@ -260,7 +260,8 @@ fn exec_op(op: &Op, vals: &[Val]) -> String {
                 let first = view();
                 i18n.set_locale(locale_of(op.locale2()));
                 let second = view();
-                format!("{first}\u{1}{second}")
+                let strings = fixture_table::call_site_ctx_string(op.idx, i18n, &vals[op.val]);
+                format!("{first}\u{1}{second}\u{1}{strings}")
             });
             owner.cleanup();
             out
@@ -291,9 +292,10 @@ pub fn expected(op: &Op, vals: &[Val]) -> Result<String, String> {
         Route::Site => fixture::reference(SITES[op.idx].spec, loc, &vals[op.val]),
         Route::CtxView => {
             let view = |l: &str| fixture::reference(SITES[op.idx].spec, l, &vals[op.val]).map(|s| if s.is_empty() { " ".to_string() } else { s });
-            match (view(loc), view(LOCALES[op.locale2()])) {
-                (Ok(a), Ok(b)) => Ok(format!("{a}\u{1}{b}")),
-                (Err(e), _) | (_, Err(e)) => Err(e),
+            let plain = fixture::reference(SITES[op.idx].spec, LOCALES[op.locale2()], &vals[op.val]);
+            match (view(loc), view(LOCALES[op.locale2()]), plain) {
+                (Ok(a), Ok(b), Ok(s)) => Ok(format!("{a}\u{1}{b}\u{1}{s}\u{2}{s}")),
+                (Err(e), _, _) | (_, Err(e), _) | (_, _, Err(e)) => Err(e),
             }
         }
         Route::PluralCardinal => fixture::reference_plural(false, loc, COUNTS[op.val]),
